@@ -169,8 +169,12 @@ def case_umis(ctx, p):
     mon.config("system:%d" % cs)
     if cs > 1:
         mon.nontriv(cs, U1, U2)
+    if p["kind"] != "half_turn" and np.all(U1 == np.rint(U1)) and np.all(U2 == np.rint(U2)):
+        U1, U2 = U1.astype(np.int64), U2.astype(np.int64)      # signed permutation matrices written with whole numbers
+        mon.config("umis:integer-typed matrices")
     try:
         base = S.Umis(U1, U2, cs)
+        kept = np.array(base, copy=True)
         ref = _cosines(base)
         name = "workload:Umis multiset invariances"
         j = p["j"] % len(rot)
@@ -180,6 +184,9 @@ def case_umis(ctx, p):
             got = _cosines(S.Umis(a, b, cs))
             ok = got.shape == ref.shape and bool(np.all(np.isfinite(got))) and float(np.max(np.abs(got - ref))) <= 1e-9
             mon.check(name, ok, observed=None if ok else got, expected=None if ok else ref, detail=label)
+        same = bool(np.array_equal(np.asarray(base), kept))
+        mon.check("workload:a Umis result is not changed by later Umis calls", same, observed=None if same else np.asarray(base)[:3],
+                  expected=None if same else kept[:3])
         if kind in ("identical", "equivalent"):
             mn = float(np.nanmin(np.asarray(base, float)[:, 1]))
             mon.check("workload:Umis of equivalent orientations contains 0", mn < 1e-4, residual=mn, observed=mn, expected="< 1e-4 deg")
